@@ -67,7 +67,8 @@ fn line_input_one_stdin<S: InterpreterTrait>(
     interpreter: &mut S,
     index: usize,
 ) -> Result<(), RuntimeError> {
-    let s = interpreter.stdin().input()?;
+    // the whole line, like `LINE INPUT #` does, not just the first field
+    let s = interpreter.stdin().line_input()?;
     interpreter.context_mut()[index] = Variant::VString(s);
     Ok(())
 }
